@@ -499,7 +499,11 @@ func ssoBuild(p ssoP) (*world.World, *http.Request, *ssoTruth) {
 			raw += "&AssertionConsumerServiceURL=https%3A%2F%2Fevil.example%2Fx1&AcsUrl=https%3A%2F%2Fevil.example%2Fx2&LogoutURL=https%3A%2F%2Fevil.example%2Fx3&Destination=https%3A%2F%2Fevil.example%2Fx4"
 			t.ForeignURLs = append(t.ForeignURLs, "https://evil.example/x1", "https://evil.example/x2", "https://evil.example/x3", "https://evil.example/x4")
 		}
-		req = world.RawRequest("GET", host, path, raw, "", nil)
+		if fs.bodyOverride != nil {
+			req = world.RawRequest("POST", host, path, raw, "application/x-www-form-urlencoded", fs.bodyOverride)
+		} else {
+			req = world.RawRequest("GET", host, path, raw, "", nil)
+		}
 	case "post", "post-query":
 		form := url.Values{}
 		b64 := base64.StdEncoding.EncodeToString(doc)
